@@ -38,7 +38,9 @@ AXIS_CODE_TEXT = {
     12: "the number of passes of the axis loop differs from the model's",
     13: "the warning flag differs from the model's",
     14: "the model of the axis loop failed (fuel, error, arity)",
-    15: "a premise of the closure/termination theorems does not hold on this case (warning, size-changing binding of the last unifier, clone with a size-1 factor)",
+    15: "a premise of the closure/termination theorems does not hold on this case: a warning was issued, or the clone of a.vaxes[0] computed in some pass has a size-1 factor inside a product",
+    16: "internal: the last unifier changes a size although nothing was warned about (impossible by C09_unify_sized)",
+    17: "harness: a physical axis occurs with two different sizes on the wire",
 }
 VALUE_CODE_TEXT = {
     4: "the first operand of solve_thunks is not the gather of a along the solution axis",
@@ -353,3 +355,20 @@ def value_value(c, r):
     B = [[wv(name, U.to_float(name, v)) for v in row] for row in c["B"]]
     z = wv(name, U.to_float(name, U.zero_of(name)))
     return ((n, m, z), r["e"], r["ebs"], A, B, (r["RA"], r["RB"], r["Xin"]), r["Xd"])
+
+def unjson_case(c):
+    """inverse of U.jsonable on a psolve case (axes stay nested lists: every consumer indexes them)"""
+    name = c["semiring"]
+    def un(v): return U.unjson(name, v)
+    def spec(sp):
+        sp = dict(sp)
+        sp["values"] = un(sp["values"]); sp["default"] = un(sp["default"])
+        sp["paxes"] = [tuple(kn) for kn in sp["paxes"]]
+        sp["vaxes"] = [axis(e) for e in sp["vaxes"]]
+        return sp
+    def axis(e):
+        if e[0] == "Phys": return ("Phys", tuple(e[1]))
+        if e[0] == "Prod": return ("Prod", [axis(x) for x in e[1]])
+        return ("Sum", (e[1][0], axis(e[1][1]), e[1][2]))
+    c = dict(c); c["a"] = spec(c["a"]); c["b"] = spec(c["b"]); c["A"] = un(c["A"]); c["B"] = un(c["B"])
+    return c
